@@ -46,10 +46,10 @@ HeaderBlock(r) ==
         ELSE <<>>)
     \o CRLF
 
-Serialize(r) == StatusLine(r) \o HeaderBlock(r) \o (IF r.hasBody THEN r.body ELSE <<>>)
+SerializeResp(r) == StatusLine(r) \o HeaderBlock(r) \o (IF r.hasBody THEN r.body ELSE <<>>)
 
 \* Interim response queued by the connection
-Ser100(v) == Serialize(NewResp(v, 100))
+Ser100(v) == SerializeResp(NewResp(v, 100))
 
 (***************************************************************************)
 (* Independent reader: status line, header lines up to the blank line,     *)
